@@ -619,8 +619,19 @@ class Notes:
             if len(inl) == 1 and inl[0].kind == "ret" and strip(inl[0].value) == ("attr", el, "sustain"):
                 conds = [(a, p) for a, p in inl[0].cond if a[0] != "inloop"]
                 open_ok = len(conds) == 1 and conds[0][1] and match(("?sym", "==", ("attr", el, "note_track_index"), OPENS), conds[0][0]) is not None
+            # a value carried from one datum to the next would make the result depend on neighbours -- unless it is never read
+            # as a carried value (the local of an expanded "first ... or None" helper, assigned and used within one iteration)
+            reads = set()
+            for root_ in [e.value for e in s.exits] + [a for e in s.exits for a, _ in e.cond] + \
+                    [x for e in s.effects for x in (e.target, e.key, e.value) if isinstance(x, tuple)] + \
+                    [a for e in s.effects for a, _ in e.cond] + [x for c_ in s.calls for x in list(c_.args) + [v for _, v in c_.kwargs]] + \
+                    [x for l_ in s.loops.values() for x in (l_.iter, l_.test) if x is not None]:
+                for tt in subterms(root_):
+                    if tt[0] in ("lv", "la") and tt[1] == ol.id:
+                        reads.add(tt[2])
             for n, (a_, u_) in ol.carried.items():
-                open_ok = False
+                if n in reads:
+                    open_ok = False
         else:
             # expression form: next((d for d in datas if d.idx == OPEN), None)
             NEXT = ("call", ("builtin", "next"), (("comp", "gen", H("b"), ((H("b"), d, (("?sym", "==", ("attr", H("b"), "note_track_index"), OPENS),)),)),
